@@ -439,8 +439,11 @@ func (c *Client) SyncCollection(ctx context.Context, path string, query *SyncQue
 	for _, resp := range ms.Responses {
 		p, err := resp.Path()
 		if err != nil {
-			if err, ok := err.(*internal.HTTPError); ok && err.Code == http.StatusNotFound {
-				ret.Deleted = append(ret.Deleted, p)
+			if err, ok := err.(*internal.HTTPError); ok && err.Code == http.StatusNotFound && len(resp.Hrefs) > 0 {
+				// a status applies to every href of its response
+				for _, href := range resp.Hrefs {
+					ret.Deleted = append(ret.Deleted, href.Path)
+				}
 				continue
 			}
 			return nil, err
